@@ -183,6 +183,7 @@ func checkC09(c *Ctx, r *Report) {
 	// ---- C09.f one shared serial provider
 	checkSharedProvider(c, r, "C09.f")
 
+	ruleEarlyExitInventory(c, r, "C09.c", 1, "core/pipeline", "generator/routes")
 	// every element filter in these packages is a reviewed one
 	ruleSkipInventory(c, r, "C09.c", loadSkipTable(c.VerifDir), 3, "core/pipeline", "generator/routes")
 }
